@@ -73,6 +73,7 @@ def run_seq(sh, s, d, case):
     clock.install(clock.FakeClock())
     hostile = Hostile(random.Random(s + 5))
     hrnd = random.Random(s + 9)
+    urnd = random.Random(s + 13)
     ZODB.DemoStorage.random = hostile
     kind = rnd.choice(['file', 'file', 'mapping', 'demo', 'demo-file', 'demo-push', 'demo-filebase'])
     path = os.path.join(d, 'Data.fs')
@@ -113,7 +114,7 @@ def run_seq(sh, s, d, case):
         tgt.tpc_vote(t)
         tid = tgt.tpc_finish(t)
         for (o, data) in pairs:
-            present[o] = tid
+            present[o] = tid if data is not None else None
         return tid
     # populate the base layer of demo storages with some ids
     if kind.startswith('demo'):
@@ -179,10 +180,15 @@ def run_seq(sh, s, d, case):
             if o in issued or o in present:
                 continue
             restore = kind == 'file' and rnd.random() < 0.5
-            commit([(o, objs.cell_record('f'))], restore=restore)
+            # (a copied-in record may be the un-creation record of an object whose creation was undone in the source - no data,
+            # no earlier revision here: its id still identifies a record of this storage until a pack removes it)
+            uncreation = restore and urnd.random() < 0.35
+            commit([(o, None if uncreation else objs.cell_record('f'))], restore=restore)
             sh.count('explicit_foreign_ids_stored')
+            if uncreation:
+                sh.count('restored_uncreation_records_under_foreign_ids')
             foreign_pending = True
-            trace.append('foreign(%d%s)' % (cand, ',restore' if restore else ''))
+            trace.append('foreign(%d%s%s)' % (cand, ',restore' if restore else '', ',uncreation' if uncreation else ''))
         elif k == 'foreign-inflight':
             # a record under an explicit id just above the allocator is stored inside a transaction, ids are allocated
             # while that transaction is in flight, then it is aborted (or committed)
